@@ -31,4 +31,14 @@ PROPS = {
         "assumptions": ["Receive/ClearMsgs of one packer are not called concurrently (one consumer goroutine per channel, as in startReplicateDMLMsg)",
                         "message sizes are non-negative and sums stay below 2^63 (Go int modelled as Z)"],
     },
+    "C17": {
+        "harness": "h_c17",
+        "n": {"quick": 1500, "thorough": 20000, "search": 3000},
+        "level_text": "Theorems (Coq, closed under the global context) over an executable model of ReplicateMeteImpl (both message maps, the store, update/remove/reload): for every history of shard reports (any order, duplicates, several tasks and messages), removals and reloads, memory and store agree entry by entry, the recorded ready set is exactly the union of the reports since the last removal, an update answers ready iff that union equals the target set, removal clears store and both memory maps, and a reload reproduces memory. The model is run against the real implementation over a JSON-text store on 1500 generated histories per run (incl. pairs of concurrent reports with a stalled store write), and a checker for the property is evaluated on the implementation's own dumps.",
+        "level_note": "Trusted: Coq kernel + VM; the Go harness and its in-memory api.ReplicateStore (stores json.Marshal text and decodes with json.Unmarshal into api.MetaMsg like both real stores). Target lists and each report's ready list are duplicate-free (as the reader builds them); store failures are not injected here (the callers log.Panic on them).",
+        "rule": "1..2 tasks x 1..3 messages (collection and partition drops, ids as the reader builds them), 2..5 channels, target = random non-empty subset; 1..16 operations: shard report (usually one channel of the target, 10% a foreign channel, 10% two channels), removal (1/12), crash+reload (1/12), 1/25 of the reports run concurrently with the next one while their store Put is stalled; DropTS around 4.5e17 with random low bits (75%) or small; after every operation the result and the full memory (both maps) and store dumps over the key universe are compared; non-trivial = at least 3 reports, distinct by op list",
+        "assumptions": ["message ids of collection and partition drops never coincide (drop-collection-<id> vs drop-partition-<c>-<p>)",
+                        "target and per-report ready lists are duplicate-free"],
+    },
 }
+
